@@ -639,8 +639,10 @@ func (ie IndexExpression) PrettyPrint(out *PrintState) *PrintState {
 	out.Print(ie.Literal())
 	out.ExpressionPrecedence = LOWEST
 	bare := false
-	switch ie.Index.(type) {
-	case *Identifier, *StringLiteral, *PostfixExpression: // m.k, m."k", m.v++ read back as written.
+	switch idx := ie.Index.(type) {
+	case *Identifier: // m.k reads back as written; m.(..) doesn't: m... would be m followed by three dots.
+		bare = idx.Type() != token.DOTDOT
+	case *StringLiteral, *PostfixExpression: // m."k", m.v++ read back as written.
 		bare = true
 	}
 	if ie.Token.Type() == token.DOT && !bare {
